@@ -115,6 +115,8 @@ func mustExpr(f *vtrans.File, name, want string) {
 	facts++
 }
 
+func os_debug() bool { return os.Getenv("GEN_C20_DEBUG") != "" }
+
 func main() {
 	slots, err := vtrans.Parse(dir + "slots.go")
 	if err != nil {
@@ -202,6 +204,7 @@ func main() {
 		bitsOf(hdr, "class"), bitsOf(hdr, "brk"), bitsOf(hdr, "used"), bitsOf(hdr, "free"))
 	fmt.Fprintf(&sb, "def pageCacheLow : Nat := %d\ndef pageCacheHigh : Nat := %d\n", cacheLow, cacheHigh)
 	fmt.Fprintf(&sb, "def defragFromWasteMB : Nat := %d\ndef defragToWasteMB : Nat := %d\n", fromMB, toMB)
+	linkFacts(&sb)
 	sb.WriteString("\nend GocoinV.Gen.MemClasses\n")
 	out := vlib.Root() + "/lean/GocoinV/Gen/MemClasses.lean"
 	os.Remove(out)
